@@ -112,7 +112,13 @@ def make_judges(ctx):
             ctx.violation('wrong_code', '%s scale=%r bias=%r %s/%s via %s: stored %s, Q((v-b)/s) = %s (transformed inputs %s)' % (
                 R.dtype_fxp(*post.fmt()), post.scale, post.bias, post.rounding, post.overflow, si.route, post.codes[i:i + 3], codes[i:i + 3], [str(u) for u in us[i:i + 3]]), ev)
         elif si.fxp_source:
-            # (a fixed-point source hands its inaccuracy flag over: only the range flags are compared)
+            # (a fixed-point source hands its inaccuracy flag over: only the range flags are compared - and that the flag IS handed over, as into an
+            #  unscaled destination)
+            if (si.src_status or {}).get('inaccuracy') and not post.status.get('inaccuracy'):
+                ctx.violation('flags', '%s scale=%r bias=%r from a fixed-point source that carries the inaccuracy flag: the flag is not handed on' % (R.dtype_fxp(*post.fmt()), post.scale, post.bias), ev,
+                              key='scaled.source_inaccuracy')
+            if (si.src_status or {}).get('inaccuracy'):
+                ctx.floor_hit(('inexact-fixed-point-source',))
             pre_status = si.pre.status if (si.pre is not None and ev.op != '__init__') else {}
             for f, now in (('overflow', over), ('underflow', under)):
                 if bool(post.status.get(f)) != (bool(pre_status.get(f)) or now) and (si.init_args is None or si.init_args.get('like') is None):
@@ -288,7 +294,7 @@ def make_judges(ctx):
 
 
 def floors(tier):
-    return [('route', r) for r in ('constructor', 'call', 'setitem', 'set_val', 'equal', 'like')] + [('complex-value-odd-scale',), ('read-huge-integer-bias',), ('inference-tolerance',), ('numpy-parameters',), ('object-array-numpy-scalars',), ('parameter-by-value',), ('scaled-operand-huge-bias',)] + [('scaled-target', w_, m_) for w_ in ('out', 'out_like') for m_ in ('raw', 'repr')] + [('carrier', c) for c in ('int8', 'int16', 'int32', 'uint8', 'uint16', 'uint64', 'float32', 'float16', 'Fxp', 'Fxp-scaled', 'int', 'float', 'float64', 'list')] + [('read', 'get_val'), ('read', 'astype'), ('read', '__call__'), ('read', 'element'), ('inferred',), ('resize',), ('raw-then-read',)] + \
+    return [('route', r) for r in ('constructor', 'call', 'setitem', 'set_val', 'equal', 'like')] + [('complex-value-odd-scale',), ('scaled-target-numpy-out',), ('inexact-fixed-point-source',), ('read-huge-integer-bias',), ('inference-tolerance',), ('numpy-parameters',), ('object-array-numpy-scalars',), ('parameter-by-value',), ('scaled-operand-huge-bias',)] + [('scaled-target', w_, m_) for w_ in ('out', 'out_like') for m_ in ('raw', 'repr')] + [('carrier', c) for c in ('int8', 'int16', 'int32', 'uint8', 'uint16', 'uint64', 'float32', 'float16', 'Fxp', 'Fxp-scaled', 'int', 'float', 'float64', 'list')] + [('read', 'get_val'), ('read', 'astype'), ('read', '__call__'), ('read', 'element'), ('inferred',), ('resize',), ('raw-then-read',)] + \
            [('params', True, False, True), ('params', False, False, True), ('params', True, True, False), ('params', True, False, False), ('params', False, False, False)]
 
 
@@ -508,6 +514,20 @@ def run_case(case, ctx):
         src = _try(lambda: Fxp([rng.randint(slo, shi) for _ in range(3)], True, src_w, src_nf, raw=True))
         src0 = _try(lambda: Fxp(rng.randint(slo, shi), True, src_w, src_nf, raw=True))
         if src is not None and src0 is not None:
+            # a source that carries the inaccuracy flag itself (its own value was rounded): the flag is handed on into a scaled destination like into a plain one
+            inx = _try(lambda: Fxp([0.3, 1.0, -0.7], True, src_w, max(src_nf, 1)))
+            inx0 = _try(lambda: Fxp(0.3, True, src_w, max(src_nf, 1)))
+            if inx is not None and inx0 is not None and inx.status['inaccuracy']:
+                _try(lambda: Fxp(inx, True, 16, 8, **kw))
+                _try(lambda: Fxp(inx0, True, 16, 8, **kw))
+                dq = _try(lambda: Fxp([0.0, 0.0, 0.0], True, 16, 8, **kw))
+                if dq is not None:
+                    _try(lambda: dq.reset())
+                    _try(lambda: dq.set_val(inx))
+                    _try(lambda: dq.reset())
+                    _try(lambda: dq.equal(inx))
+                    _try(lambda: dq.reset())
+                    _try(lambda: dq.__setitem__(1, inx0))
             _try(lambda: Fxp(src, s, w, nf, **kw))
             _try(lambda: Fxp(src0, s, w, nf, **kw))
             dst = _try(lambda: Fxp([0.0, 0.0, 0.0], s, w, nf, **kw))
@@ -618,14 +638,21 @@ def run_case(case, ctx):
         lob, hib = R.code_range(True, wb)
         ca, cb = [rng.randint(loa, hia) for _ in range(3)], [rng.randint(lob, hib) for _ in range(3)]
         opn = rng.choice(['add', 'sub', 'mul'])
-        way = rng.choice(['out', 'out_like'])
+        way = rng.choice(['out', 'out_like', 'numpy_out'])
         for meth in ('raw', 'repr'):
             try:
                 xa_ = Fxp(ca, True, wa, fa, raw=True)
                 xb_ = Fxp(cb, True, wb, fb, raw=True)
-                t_ = Fxp(np.zeros(3) if way == 'out' else None, True, 16, rng.choice([2, 4, 6]), rounding=r, overflow=o, scale=scale, bias=bias)
+                t_ = Fxp(np.zeros(3) if way != 'out_like' else None, True, 16, rng.choice([2, 4, 6]), rounding=r, overflow=o, scale=scale, bias=bias)
                 tf = (t_.signed, t_.n_word, t_.n_frac)
-                z_ = getattr(fm, opn)(xa_, xb_, method=meth, **{way: t_})
+                if way == 'numpy_out':
+                    # (NumPy hands out= over as a tuple)
+                    if meth == 'repr':
+                        continue
+                    z_ = {'add': np.add, 'sub': np.subtract, 'mul': np.multiply}[opn](xa_, xb_, out=t_)
+                    ctx.floor_hit(('scaled-target-numpy-out',))
+                else:
+                    z_ = getattr(fm, opn)(xa_, xb_, method=meth, **{way: t_})
                 got = [int(k) for k in np.asarray(z_.val).ravel().tolist()]
             except Exception as ex:     # noqa
                 ctx.violation('scaled_target_raises', '%s(..., %s=<scaled %s>, method=%r) raised %s: %s' % (opn, way, R.dtype_fxp(True, 16, 0), meth, type(ex).__name__, str(ex)[:100]), key='scaled.target_raises')
@@ -640,7 +667,8 @@ def run_case(case, ctx):
                 ctx.violation('scaled_target', '%s of %s codes %s and %s codes %s into %s=<s16/%d scale=%r bias=%r %s/%s> by method %r: codes %s, Q((result - b)/s) = %s' % (
                     opn, R.dtype_fxp(True, wa, fa), ca, R.dtype_fxp(True, wb, fb), cb, way, tf[2], scale, bias, r, o, meth, got, exp), key='scaled.target')
             ctx.judged(('scaled-target', opn, way, meth), True, None, elements=3)
-            ctx.floor_hit(('scaled-target', way, meth))
+            if way != 'numpy_out':
+                ctx.floor_hit(('scaled-target', way, meth))
     # a 0-dimensional array given as parameter is taken by value (changing the caller's array later changes nothing), and the value of a scaled
     # operand enters arithmetic whatever its magnitude: an integer bias of 2^50 / next to 2^63 makes sums and products that leave int64 - they
     # saturate on their own side
